@@ -166,7 +166,9 @@ def handle (j : Json) : Except String Json := do
     let genExcl ← (← optArr j "genexcl").mapM ixnOf
     let targets ← targetsOf nodes j
     let touched : Touched := ⟨keys, attrs, modNamedAtoms ff spec targets, removed⟩
-    pure (okJson [("diffs", toJson (checkFrame spec obs touched genExcl))])
+    let all := checkFrame spec obs touched genExcl
+    let diffs := all.filter (·.1 != "resid") ++ all.filter (·.1 == "resid")
+    pure (okJson [("diffs", toJson (diffs.map (·.2))), ("cats", toJson (diffs.map (·.1)).eraseDups)])
   | _ => throw s!"unknown op {op}"
 
 end PolyplyVerif.Driver.C01
